@@ -530,7 +530,9 @@ def shrink(case):
 # --------------------------------------------------------------------------------------------------
 # generators
 B8 = [0, 1, 2, 0x7F, 0x80, 0xFE, 0xFF]
-B16 = [0, 1, 0xFF, 0x100, 0x0104, 0x7FFF, 0x8000, 0xFFFE, 0xFFFF]
+B16 = [0, 1, 0xFF, 0x100, 0x0104, 0x7FFF, 0x8000, 0xFFFE, 0xFFFF,
+       # identifiers that mean something to zigpy / Zigbee (profiles HA, ZLL, SE, GreenPower; clusters touchlink, OTA, basic)
+       0xC05E, 0x0109, 0xA1E0, 0x1000, 0x0019, 0x0021, 0x0006]
 BCAST = [0xFFFF, 0xFFFD, 0xFFFC, 0xFFFB]
 
 
